@@ -16,10 +16,14 @@
     run ends because all normal packets were processed (proved through a counting invariant over
     the bit-faithful heap model: `push` adds exactly the pushed element, `pop` removes exactly
     the returned one);
+  * `C15_causality`, `C15_causality_trace`: causality at trace level in Hall form — for every
+    instant `T`, receipts of a kind on a side up to `T` are at most the sends of that kind on the
+    other side up to `T − delay` (equivalent, for the time-ordered trace, to an injection into
+    distinct earlier sends at least one delay before);
   * `C15_conservation_trace`: the same statement on the returned unfiltered trace, in the
     vocabulary of the monitor (`normalSentCount`, `share`).
 -/
-import MbVerif.Proofs.SimConserve
+import MbVerif.Proofs.SimMatch
 import MbVerif.Spec.C15
 
 namespace Mb.C15
@@ -161,6 +165,53 @@ theorem C15_conservation_trace (budget : Nat) (mc ms : List Machine) (trace : Li
     simp [share, shareOf, List.countP_eq_length_filter]
   rw [hid, hkeep, hcount, hshare]
   exact ⟨hcons.1 c, fun h => hcons.2 h c⟩
+
+/-- **Causality at trace level (Hall form).**  For every parsed trace, machine set, argument
+    record and oracle, for each side `c`, each kind (normal / padding) and *every instant `T`*:
+    the number of TunnelRecv events of that kind processed on side `c` with time ≤ `T` is at most
+    the number of TunnelSent events of the same kind processed on the other side with
+    time + delay ≤ `T`.  For the time-ordered stream this is equivalent to an injection from the
+    receipts to distinct earlier sends of the same kind on the other side, each at least one
+    network delay before (match the k-th receipt with the k-th send). -/
+theorem C15_causality (budget : Nat) (mc ms : List Machine) (trace : List TraceLine) (delay : Nat) (a : Args) (orc : σ)
+    (hd : a.network.delay = delay) (c pd : Bool) (T : Int) :
+    (simAdvanced ρ budget mc ms (parseTrace trace delay) a orc).stream.countP (fun r => recvP c pd T r.ev) ≤
+    (simAdvanced ρ budget mc ms (parseTrace trace delay) a orc).stream.countP (fun r => sendP c pd T delay r.ev) := by
+  unfold simAdvanced
+  cases hi : initState ρ mc ms (parseTrace trace delay) a orc with
+  | error f => simp
+  | ok st =>
+    simp only []
+    rw [finish_stream]
+    have h := loop_causal ρ a c pd T (loopFuel a budget) st 0 0
+    rw [initState_sq ρ hi, parseTrace_no_recv _ (recvP_pred c pd T), initState_network ρ hi, hd, Nat.zero_add] at h
+    exact h
+
+/-- the same on the returned trace of an unfiltered run that did not fault -/
+theorem C15_causality_trace (budget : Nat) (mc ms : List Machine) (trace : List TraceLine) (delay : Nat) (a : Args)
+    (orc : σ) (hd : a.network.delay = delay) (hoc : a.onlyClientEvents = false) (hon : a.onlyNetworkActivity = false)
+    (hok : ∀ f, (simAdvanced ρ budget mc ms (parseTrace trace delay) a orc).stop ≠ .fault f) (c pd : Bool) (T : Int) :
+    (simAdvanced ρ budget mc ms (parseTrace trace delay) a orc).trace.countP (recvP c pd T) ≤
+    (simAdvanced ρ budget mc ms (parseTrace trace delay) a orc).trace.countP (sendP c pd T delay) := by
+  have hid := C15_final_sort_identity ρ budget mc ms (parseTrace trace delay) a orc hok
+  have hkeep : ∀ l : List StepRec, l.filter a.keep = l := by
+    intro l
+    apply List.filter_eq_self.2
+    intro r _
+    simp [Args.keep, keep, hoc, hon]
+  rw [hid, hkeep, List.countP_map, List.countP_map]
+  exact C15_causality ρ budget mc ms trace delay a orc hd c pd T
+
+/-- **The monitor's causality predicate holds of the model**: on the returned trace of an
+    unfiltered run that did not fault, every TunnelRecv can be matched (k-th receipt with k-th
+    send, per side and kind) with a distinct TunnelSent of the same kind on the other side at
+    least one network delay earlier — `C15.causality`, exactly what the monitor evaluates on the
+    implementation's traces. -/
+theorem C15_causality_matching (budget : Nat) (mc ms : List Machine) (trace : List TraceLine) (delay : Nat) (a : Args)
+    (orc : σ) (hd : a.network.delay = delay) (hoc : a.onlyClientEvents = false) (hon : a.onlyNetworkActivity = false)
+    (hok : ∀ f, (simAdvanced ρ budget mc ms (parseTrace trace delay) a orc).stop ≠ .fault f) :
+    causality delay (simAdvanced ρ budget mc ms (parseTrace trace delay) a orc).trace = true :=
+  causality_of_hall delay _ (fun c pd T => C15_causality_trace ρ budget mc ms trace delay a orc hd hoc hon hok c pd T)
 
 /-- non-vacuity of `C15_final_sort_identity`'s hypothesis and of the ordering theorem: the
     concrete two-packet run ends without a fault after 7 iterations -/
